@@ -16,13 +16,13 @@ from vlib import ROOTS, REPLAYS, NCPU, ToolError, log, root_indices
 PROBE_EVERY = {"quick": 40, "thorough": 16}
 
 
-def emit_and_replay(ctx, module, cfg, env, label, probe_every, tag="POS", timeout=1500):
+def emit_and_replay(ctx, module, cfg, env, label, probe_every, tag="POS", timeout=1500, simulate=None, extra=None):
     """TLC behaviour generation followed by parallel replay into the implementation"""
     import time
     t0 = time.time()
     e = dict(env)
     e["VERIF_KEYS"] = ctx.keys()
-    res = ctx.tlc(module, cfg, env=e, workers=NCPU, timeout=timeout, name=label)
+    res = ctx.tlc(module, cfg, env=e, workers=NCPU, timeout=timeout, name=label, simulate=simulate, extra=extra)
     t1 = time.time()
     hard = ctx.tlc_hard_errors(res)
     if hard or res["violated"]:
@@ -30,6 +30,8 @@ def emit_and_replay(ctx, module, cfg, env, label, probe_every, tag="POS", timeou
     jobs = max(1, NCPU - 2)
     parts, n = ctx.split_lines(res["out_path"], tag, jobs)
     os.remove(res["out_path"])
+    if simulate:
+        res["distinct"] = res["generated"] = n
     if n != res["distinct"]:
         ctx.note("%s: TLC reported %d distinct states but printed %d %s lines" % (label, res["distinct"], n, tag))
 
@@ -154,9 +156,12 @@ RULE = ("spec->impl: every distinct position TLC reaches from the listed roots/f
         "check; distinct = distinct FEN text.")
 
 
-def board_pipeline(ctx, bfs, walks, families=()):
+def board_pipeline(ctx, bfs, walks, families=(), sims=()):
     """bfs: list of (label, indices, depth); walks: list of dict(label,tags,walks,plies,shards);
-    families: list of (label, cfg, env)"""
+    families: list of (label, cfg, env); sims: list of (label, indices, depth, traces per worker) -
+    TLC simulation: random deep behaviours of the game state machine; TLC evaluates the emitting
+    invariant on every successor it generates along the way, so each behaviour contributes all the
+    positions one move off its path"""
     ctx.cov["rule"] = RULE
     pe = PROBE_EVERY[ctx.tier]
     for label, indices, depth in bfs:
@@ -165,6 +170,10 @@ def board_pipeline(ctx, bfs, walks, families=()):
                         {"VERIF_DEPTH": depth, "VERIF_ROOTSEL": sel}, label, pe)
     for label, cfg, env in families:
         emit_and_replay(ctx, "Families", cfg, env, label, pe)
+    for label, indices, depth, num in sims:
+        sel = write_sel(ctx, indices, label)
+        emit_and_replay(ctx, "ChessMC", "ChessMC_emit.cfg", {"VERIF_DEPTH": depth, "VERIF_ROOTSEL": sel}, label, pe * 4,
+                        timeout=3000, simulate="num=%d" % num, extra=["-depth", str(depth + 2), "-seed", str(ctx.seed)])
     for w in walks:
         walks_and_validate(ctx, w["label"], w["tags"], w["walks"], w["plies"], w["shards"], pe * 2,
                            illegal_pct=w.get("illegal_pct", 10), undo_pct=w.get("undo_pct", 0))
